@@ -1,1 +1,56 @@
 // Kani contract harnesses for /repo/arrow-select/src/nullif.rs (child module: sees private items via super::)
+use super::*;
+#[path = "/verif/kani/support/spec.rs"]
+mod spec;
+use spec::*;
+use arrow_array::types::Int32Type;
+use arrow_array::PrimitiveArray;
+use arrow_buffer::{Buffer, ScalarBuffer};
+
+// Contract (C03, single attempt): nullif(left, right) on an Int32 array of 3 rows: output row i has the
+// value of left row i and is valid <=> left row i is valid /\ not (right row i is true /\ valid)
+// (the word formula validity & !(mask & mask_valid)); exact null count. There is no typed core: the
+// formula lives in closures inside the `&dyn Array -> ArrayRef` entry point (to_data / make_array), so
+// the whole kernel has to run.
+// @unit name=nullif_i32_n3 props=C03 kind=bounded bound=rows=3_both_validities_present fns=nullif tier=thorough timeout=900 mem=10 note=not_confirmed_at_checkpoint
+#[kani::proof]
+#[kani::unwind(8)]
+#[kani::stub(alloc::fmt::format, stub_format)]
+fn nullif_i32_n3() {
+    const N: usize = 3;
+    let store: [i32; N] = kani::any();
+    let lv: [u8; 1] = kani::any();
+    let rb: [u8; 1] = kani::any();
+    let rv: [u8; 1] = kani::any();
+    let left = unsafe {
+        PrimitiveArray::<Int32Type>::new_unchecked(
+            ScalarBuffer::new(Buffer::from_slice_ref(&store), 0, N),
+            Some(NullBuffer::new(BooleanBuffer::new(Buffer::from_slice_ref(&lv), 0, N))),
+        )
+    };
+    let right = BooleanArray::new(
+        BooleanBuffer::new(Buffer::from_slice_ref(&rb), 0, N),
+        Some(NullBuffer::new(BooleanBuffer::new(Buffer::from_slice_ref(&rv), 0, N))),
+    );
+    let r = nullif(&left, &right);
+    match &r {
+        Ok(out) => {
+            let out = out.as_any().downcast_ref::<PrimitiveArray<Int32Type>>().unwrap();
+            assert!(out.len() == N);
+            let mut z = 0;
+            let mut i = 0;
+            while i < N {
+                let valid = bit(&lv, i) && !(bit(&rb, i) && bit(&rv, i));
+                assert!(out.is_valid(i) == valid);
+                if valid { assert!(out.value(i) == store[i]); } else { z += 1; }
+                i += 1;
+            }
+            assert!(out.null_count() == z);
+        }
+        Err(_) => assert!(false),
+    }
+    kani::cover!(bit(&lv, 0) && bit(&rb, 0) && bit(&rv, 0));
+    std::mem::forget(r);
+    std::mem::forget(left);
+    std::mem::forget(right);
+}
